@@ -171,11 +171,12 @@ def reparses(xml, p):
 
 def text_case(seed, idx):
     """A generated (L, R, options) whose serialisations parse back to the same trees."""
-    for k in range(12):
-        L, R, opts = cluster.case_for(seed, "main", idx * 12 + k, "quick")
+    k = 0
+    while True:
+        L, R, opts = cluster.case_for(seed, "main", idx * 1000 + k, "quick")
         if reparses(xt.to_xml(L), L) and reparses(xt.to_xml(R), R):
             return L, R, opts
-    return L, R, opts
+        k += 1
 
 
 def has_crit(text):
